@@ -44,6 +44,8 @@ func sinkEnum(e *env) error {
 		{"large", fixedBook, longLog(e.argInt("days", 120))},
 		// a food name of 5000 bytes: the first write of several reports is larger than bufio's buffer and goes straight to the sink
 		{"longname", fixedBook, "2021/01/01:\n  " + strings.Repeat("A", 5000) + "/x: 1\n  b: 2\n"},
+		// malformed lines: every command fails on this log except lint, which lists its findings - a list that can be lost too
+		{"malformed", fixedBook, "2021/01/01:\n  a: 1\n  broken\n  b: x1\n# comment\n  c 2\n2021/01/02:\n  nosep\n  d: 1,5\n"},
 	}
 	offsets := 0
 	for _, in := range inputs {
